@@ -384,9 +384,14 @@ class Runtime:
         return self._abs[key]
 
     # ---- boolean structure
-    def _spec_eval(self, th):
+    def _spec_eval(self, th, guard=None):
+        """evaluate an operand that Python would only evaluate under `guard` (z3 Bool): side conditions recorded inside
+        (no underflow, key present ...) are needed under that guard only"""
         ex = _ex()
         ex.speculative += 1
+        if guard is not None:
+            self.guards.append(SBool(guard))
+            self.sites.append(self.sites[-1] if self.sites else 'expr')
         try:
             return True, th()
         except _CONTROL as e:
@@ -397,6 +402,9 @@ class Runtime:
             return False, None
         finally:
             ex.speculative -= 1
+            if guard is not None:
+                self.guards.pop()
+                self.sites.pop()
 
     def _force(self, pending, is_and):
         """fork on the symbolic operands seen so far; True iff none of them short-circuits"""
@@ -411,7 +419,7 @@ class Runtime:
         for idx, th in enumerate(ths):
             lastop = idx == n - 1
             if pending:
-                ok, v = self._spec_eval(th)
+                ok, v = self._spec_eval(th, z3.And(*pending) if is_and else z3.Not(z3.Or(*pending)))
                 if not ok:
                     if not self._force(pending, is_and):
                         return not is_and
@@ -469,8 +477,8 @@ class Runtime:
             c = c != 0
         if not isinstance(c, SBool):
             return tha() if c else thb()
-        oka, a = self._spec_eval(tha)
-        okb, b = self._spec_eval(thb) if oka else (False, None)
+        oka, a = self._spec_eval(tha, c.term)
+        okb, b = self._spec_eval(thb, z3.Not(c.term)) if oka else (False, None)
         if oka and okb:
             try:
                 return self.merge(c.term, a, b, 'ifexp')
